@@ -37,6 +37,9 @@ def parsedate_stub(ev, args, kwargs, node):
     USED.add("A-date-parse")
     ok = ufunc("date_parses", S, Bz)(args[0].t)
     if not ev.st.decide(ok):
+        # ValueError for an unparsable date, OverflowError for absurd field values (a 20-digit hour)
+        if ev.st.choose([z3.BoolVal(True)] * 2, force_record=True) == 1:
+            raise PyRaise("OverflowError", None, getattr(node, "lineno", 0))
         raise PyRaise("ValueError", None, getattr(node, "lineno", 0))
     return VOpaque(ufunc("parsed_date", S, opaque_sort("Datetime"))(args[0].t), "Datetime")
 
